@@ -91,4 +91,37 @@ theorem twosum_bits (f : Fmt) (h : WF f) (x y : Nat)
   rw [eA', eC', add_comm qy qx, add_comm (r (qy - _))]
   exact hexact
 
+/-- **Fast2Sum on bit patterns**: finite operands with |value x| ≥ |value y|, no overflow ⇒ exact. -/
+theorem fast2sum_bits (f : Fmt) (h : WF f) (x y : Nat)
+    (hx : isFiniteBits f x = true) (hy : isFiniteBits f y = true) :
+    let S := FP.add f y x
+    let Z := FP.sub f S x
+    let T := FP.sub f y Z
+    isFiniteBits f S = true → isFiniteBits f Z = true → isFiniteBits f T = true →
+    ∃ qx qy qs qt : ℚ, toQ f x = some qx ∧ toQ f y = some qy ∧ toQ f S = some qs ∧ toQ f T = some qt ∧
+      (|qy| ≤ |qx| → qs = rne (qf f h.hp) (qx + qy) ∧ qs + qt = qx + qy) := by
+  intro S Z T hS hZ hT
+  obtain ⟨sx, mx, ex, dx⟩ := finite_decode f x hx
+  obtain ⟨sy, my, ey, dy⟩ := finite_decode f y hy
+  obtain ⟨sS, mS, eS, dS⟩ := finite_decode f S hS
+  obtain ⟨sZ, mZ, eZ, dZ⟩ := finite_decode f Z hZ
+  set r := rne (qf f h.hp) with hr
+  have hrn : IsRN (qf f h.hp) r := isRN_rne _
+  set qx := valQ sx mx ex with hqx
+  set qy := valQ sy my ey with hqy
+  have vS : toQ f S = some (r (qy + qx)) := add_correct f h y x sy sx my mx ey ex dy dx hS
+  have eS' : valQ sS mS eS = r (qy + qx) := by
+    have := toQ_fin f S sS mS eS dS; rw [vS] at this; exact (Option.some.inj this).symm
+  have vZ : toQ f Z = some (r (valQ sS mS eS - qx)) := sub_correct f h S x sS sx mS mx eS ex dS dx hZ
+  have eZ' : valQ sZ mZ eZ = r (r (qy + qx) - qx) := by
+    have := toQ_fin f Z sZ mZ eZ dZ; rw [vZ, eS'] at this; exact (Option.some.inj this).symm
+  have vT : toQ f T = some (r (qy - valQ sZ mZ eZ)) := sub_correct f h y Z sy sZ my mZ ey eZ dy dZ hT
+  refine ⟨qx, qy, r (qy + qx), r (qy - valQ sZ mZ eZ), toQ_fin f x sx mx ex dx, toQ_fin f y sy my ey dy, vS, vT, ?_⟩
+  intro hxy
+  have hexact : r (qx + qy) + r (qy - r (r (qx + qy) - qx)) = qx + qy :=
+    (fast2sum_exact hrn (rep_of_decode f h x sx mx ex dx) (rep_of_decode f h y sy my ey dy) hxy).2
+  refine ⟨by rw [add_comm], ?_⟩
+  rw [eZ', add_comm qy qx]
+  exact hexact
+
 end FAVerif.SoftRound
